@@ -14,6 +14,9 @@ pub enum Reply {
     /// only in scripts: "reply with exactly the message that was just sent" (a line echo); the scripted bus
     /// resolves it to Msg(..) before anything is judged
     Echo,
+    /// only in scripts: the reply that would let the protocol continue, but handed over as a hand-built unknown-frame
+    /// wrapper around that reply's frame (same wire bytes, another message value); resolved by the scripted bus
+    Disguised,
 }
 
 impl Reply {
@@ -23,6 +26,7 @@ impl Reply {
             Reply::None => "no reply".into(),
             Reply::BusError => "BUS ERROR".into(),
             Reply::Echo => "ECHO".into(),
+            Reply::Disguised => "DISGUISED".into(),
         }
     }
 }
